@@ -62,6 +62,9 @@ string_entry!(EPairsStringList, "pairs<string,list>", Pairs<StringRegion, IL>, c
 string_entry!(EPairsStringDict, "pairs<string<codec-dict>>", Pairs<StringRegion<DictCodec>, IO>, clone: no, serde: no, model: no, reserve: none,
     flags: { idx_is_usize: true, dense: true, coded: true });
 
+string_entry!(EStringPairsOwned, "string<pairs<owned<u8>>>", StringRegion<Pairs<OwnedRegion<u8>, IO>>, clone: yes, serde: yes, model: yes, reserve: (|v| v),
+    flags: { idx_is_usize: true, dense: true });
+
 /// Collapsing string regions: `&&str` has no `PartialEq<&str>`, so that form is absent.
 macro_rules! collapse_string_entry {
     ($name:ident, $label:expr, $R:ty, clone: $c:tt, serde: $s:tt, model: $m:tt,
@@ -370,6 +373,44 @@ entry! { EOptionCollapseString, "option<collapse<string>>", OptionRegion<Collaps
         "read-item(region)" => |s, v, aux| { let i = aux.push(v); s.put(aux.index(i)) },
     ]
 }
+entry! { EOptionSliceU8, "option<slice<mirror<u8>>>", OptionRegion<SliceRegion<MirrorRegion<u8>>>,
+    clone: yes, serde: yes, model: yes,
+    flags: { structural: true },
+    reserve: (|v| v),
+    canon: "&Option<Vec<u8>>" => |v| v,
+    forms: [
+        "Option<Vec<u8>>" => |s, v, aux| s.put(v.clone()),
+        "Option<&Vec<u8>>" => |s, v, aux| s.put(v.as_ref()),
+        "Option<&[u8]>" => |s, v, aux| s.put(v.as_deref()),
+        "read-item(region)" => |s, v, aux| { let i = aux.push(v); s.put(aux.index(i)) },
+        "read-item(borrowed)" => |s, v, aux| s.put(<<OptionRegion<SliceRegion<MirrorRegion<u8>>> as Region>::ReadItem<'_> as IntoOwned>::borrow_as(v)),
+    ]
+}
+entry! { EResultSliceColumns, "result<slice<string>,columns<mirror<u8>>>", ResultRegion<SliceRegion<StringRegion>, ColumnsRegion<MirrorRegion<u8>, IO>>,
+    clone: yes, serde: yes, model: yes,
+    flags: { stringy: true },
+    reserve: none,
+    canon: "&Result" => |v| v,
+    forms: [
+        "Result" => |s, v, aux| s.put(v.clone()),
+        "Result<&Vec,&Vec>" => |s, v, aux| s.put(v.as_ref()),
+        "Result<&[String],&[u8]>" => |s, v, aux| s.put(v.as_ref().map(|x| x.as_slice()).map_err(|e| e.as_slice())),
+        "read-item(region)" => |s, v, aux| { let i = aux.push(v); s.put(aux.index(i)) },
+        "read-item(borrowed)" => |s, v, aux| s.put(<<ResultRegion<SliceRegion<StringRegion>, ColumnsRegion<MirrorRegion<u8>, IO>> as Region>::ReadItem<'_> as IntoOwned>::borrow_as(v)),
+    ]
+}
+entry! { ETupleSliceOption, "tuple(slice<mirror<u8>>,option<string>)", TupleABRegion<SliceRegion<MirrorRegion<u8>>, OptionRegion<StringRegion>>,
+    clone: yes, serde: yes, model: yes,
+    flags: { stringy: true, structural: true },
+    reserve: (|v| v),
+    canon: "&(Vec<u8>,Option<String>)" => |v| v,
+    forms: [
+        "owned" => |s, v, aux| s.put(v.clone()),
+        "(&[u8],Option<&str>)" => |s, v, aux| s.put((v.0.as_slice(), v.1.as_deref())),
+        "(&Vec<u8>,&Option<String>)" => |s, v, aux| s.put((&v.0, &v.1)),
+        "read-item(region)" => |s, v, aux| { let i = aux.push(v); s.put(aux.index(i)) },
+    ]
+}
 entry! { EResultStringU8, "result<string,mirror<u8>>", ResultRegion<StringRegion, MirrorRegion<u8>>,
     clone: yes, serde: yes, model: yes,
     flags: { stringy: true, structural: true },
@@ -542,6 +583,8 @@ slice_entry!(ESliceHuffman, "slice<huffman<u8>>", SliceRegion<HuffmanContainer<u
     flags: { coded: true, can_heap: false, can_reserve_regions: false });
 slice_entry!(ESliceStringDict, "slice<string<codec-dict>>", SliceRegion<StringRegion<DictCodec>>, clone: no, serde: no, model: no, reserve: none,
     flags: { coded: true, stringy: true });
+slice_entry!(ESliceStringPairsOwned, "slice<string<pairs<owned<u8>>>,optimized>", SliceRegion<StringRegion<Pairs<OwnedRegion<u8>, IO>>, IO>, clone: yes, serde: yes, model: yes, reserve: (|v| v),
+    flags: { stringy: true });
 slice_entry!(ESliceColumns, "slice<columns<mirror<u8>>>", SliceRegion<ColumnsRegion<MirrorRegion<u8>>, IO>, clone: yes, serde: yes, model: yes, reserve: none,
     flags: {});
 
@@ -615,6 +658,7 @@ columns_entry!(EColumnsPairsString, "columns<pairs<string>>", ColumnsRegion<Pair
 columns_entry!(EColumnsOwnedU8, "columns<owned<u8>>", ColumnsRegion<OwnedRegion<u8>, IO>, clone: yes, serde: yes, model: yes, flags: {});
 columns_entry!(EColumnsSliceU8, "columns<slice<mirror<u8>>>", ColumnsRegion<SliceRegion<MirrorRegion<u8>>, IO>, clone: yes, serde: yes, model: yes, flags: {});
 columns_entry!(EColumnsColumns, "columns<columns<mirror<u8>>>", ColumnsRegion<ColumnsRegion<MirrorRegion<u8>, IO>, IO>, clone: yes, serde: yes, model: yes, flags: {});
+columns_entry!(EColumnsVecU32, "columns<vec<u32>>", ColumnsRegion<Vec<u32>, IO>, clone: yes, serde: yes, model: yes, flags: {});
 columns_entry!(EColumnsOptionString, "columns<option<string>>", ColumnsRegion<OptionRegion<StringRegion>, IO>, clone: yes, serde: yes, model: yes, flags: { stringy: true });
 
 entry! { EColumnsCollapsePairsString, "columns<collapse<pairs<string>>>", ColumnsRegion<Collapse<Pairs<StringRegion, IO>>, IO>,
